@@ -6,6 +6,7 @@ import (
 	"fmt"
 	"math"
 	"math/rand"
+	"sort"
 	"strings"
 	"testing/fstest"
 
@@ -270,6 +271,22 @@ var c19Contexts = []c19Ctx{
 			return fmt.Sprintf("import \"host\"\nfunc loop() int {\n\ts := 0\n\tfor i := 0; i < 3; i++ {\n\t\ts += host.N(%s)\n\t}\n\treturn s\n}\nr := loop()\nprintln(\"RES\", r)", argList(e)), 3
 		},
 		func(e embedRec) string { return "RES " + fmt.Sprint(e.Stack[0]*3) }},
+	{"return-from-wrapper", func(e embedRec) bool { return e.Req >= 1 && e.Below == 0 },
+		func(e embedRec) (string, int) {
+			// the native call is the sole operand of a return: it is asked for as many results as the wrapper declares
+			rt := "int"
+			if e.Req > 1 {
+				rt = "(" + strings.TrimSuffix(strings.Repeat("int, ", e.Req), ", ") + ")"
+			}
+			return fmt.Sprintf("import \"host\"\nfunc w() %s {\n\treturn host.N(%s)\n}\n%s := w()\nprintln(\"RES\", %s)", rt, argList(e), lhs(e.Req), lhs(e.Req)), 1
+		},
+		func(e embedRec) string {
+			s := "RES"
+			for _, v := range e.Stack {
+				s += " " + fmt.Sprint(v)
+			}
+			return s
+		}},
 	{"local-in-func", func(e embedRec) bool { return e.Req >= 1 && e.Below == 0 },
 		func(e embedRec) (string, int) {
 			return fmt.Sprintf("import \"host\"\nfunc f() {\n\tk := 5\n\t%s := host.N(%s)\n\tprintln(\"RES\", %s, k)\n}\nf()", lhs(e.Req), argList(e), lhs(e.Req)), 1
@@ -284,7 +301,7 @@ var c19Contexts = []c19Ctx{
 }
 
 func checkC19(c *Ctx) {
-	c.Rule = "cases = every (NewFunc form, declared arity 0..6, surplus variadic arguments 0..3, spread call or not, results produced 0..4, results requested 0..produced+1, operands below 0..2, native raises or not) enumerated by TLC from Embed.tla, each replayed in every context able to express it (7 script contexts + host Func + host Call); a failure family (9 ways a script function fails x 5 routes incl. nested re-entry through natives x Eval/Load); natives build their result list in a fresh slice or in place in their argument buffer (leading / trailing slots); plus constructor/accessor round trips over boundary and seeded random scalars; distinct_nontrivial = replayed (case, context) pairs with at least one argument or result"
+	c.Rule = "cases = every (NewFunc form, declared arity 0..6, surplus variadic arguments 0..3, spread call or not, results produced 0..4, results requested 0..produced+1, operands below 0..2, native raises or not) enumerated by TLC from Embed.tla, each replayed in every context able to express it (8 script contexts incl. the native call as the sole operand of a return + host Func + host Call); re-entrant natives over several rounds on one VM; a failure family (9 ways a script function fails x 5 routes incl. nested re-entry through natives x Eval/Load); natives build their result list in a fresh slice or in place in their argument buffer (leading / trailing slots); plus constructor/accessor round trips over boundary and seeded random scalars; distinct_nontrivial = replayed (case, context) pairs with at least one argument or result"
 	c.Assumptions = []string{"natives record copies of the arguments they were handed", "TLC evaluates Embed.tla / FixedWidth.tla as written"}
 	dir := c.specWorkDir("mc")
 	res := c.runTLC(dir, TLCOpts{Module: "Embed", Cfg: "MC_Embed.cfg", Workers: 8})
@@ -544,6 +561,103 @@ func checkC19(c *Ctx) {
 					if e2 != nil || len(r2) != 1 || r2[0].Int() != 42 {
 						c.violate(hashKey(key+"|after"), fmt.Sprintf("after the failure of %s through %s the VM no longer runs a plain call: %v %v", f.name, route, valsToDescs(r2), e2), rp)
 					}
+				}
+			}
+		}
+	}
+
+	// re-entrancy and repeated use of one VM: natives that re-enter the VM they were registered on (the
+	// callback's own VM argument, or the VM captured by the host closure), called in several rounds; the
+	// results of an earlier Call stay what they were after later Calls
+	{
+		var vm *goat.VM
+		mk := func(captured bool) *goat.VM {
+			vm = goat.New(goat.WithStdout(&bytes.Buffer{}))
+			vm.Set("host.Apply", goat.NewFunc(2, 1, func(v2 *goat.VM, a []goat.Value) goat.Value {
+				target := v2
+				if captured {
+					target = vm
+				}
+				rets, err := target.Func(a[0], 1, a[1])
+				if err != nil {
+					panic(err)
+				}
+				return rets[0]
+			}))
+			_, err := vm.Eval(fstest.MapFS{}, "re.go", `import "host"
+import "golang.org/x/exp/slices"
+func sq(x int) int { return x * x }
+func twice(f func(int) int, x int) int {
+	a := x + 100
+	r := host.Apply(f, x) + host.Apply(f, x+1)
+	return r + a - a
+}
+func nest(x int) int { return twice(sq, x) + host.Apply(sq, x) }
+func sorted(a, b, c int) int {
+	xs := []int{a, b, c}
+	slices.SortFunc(xs, func(p, q int) bool { return p < q })
+	return xs[0]*100 + xs[1]*10 + xs[2]
+}`)
+			if err != nil {
+				fatalf("the re-entrancy program does not load: %v", err)
+			}
+			return vm
+		}
+		for _, captured := range []bool{false, true} {
+			mk(captured)
+			var kept [][]goat.Value
+			var keptWant []int
+			for round := 0; round < 4; round++ {
+				x := round + 2
+				steps := []struct {
+					name string
+					args []goat.Value
+					want int
+				}{
+					{"main.twice", []goat.Value{vm.Get("main.sq"), goat.Int(x)}, x*x + (x+1)*(x+1)},
+					{"main.nest", []goat.Value{goat.Int(x)}, x*x + (x+1)*(x+1) + x*x},
+					{"main.sorted", []goat.Value{goat.Int(3), goat.Int(round % 3), goat.Int(2)}, func() int {
+						v := []int{3, round % 3, 2}
+						sort.Ints(v)
+						return v[0]*100 + v[1]*10 + v[2]
+					}()},
+					{"main.sq", []goat.Value{goat.Int(x + 10)}, (x + 10) * (x + 10)},
+				}
+				for _, st := range steps {
+					var rets []goat.Value
+					var err error
+					pan := ""
+					func() {
+						defer func() {
+							if r := recover(); r != nil {
+								pan = fmt.Sprint(r)
+							}
+						}()
+						goat.VerifSetBudget(200000)
+						defer goat.VerifSetBudget(-1)
+						rets, err = vm.Call(st.name, 1, st.args...)
+					}()
+					c.Evaluations++
+					key := fmt.Sprintf("reenter|%v|%s", captured, st.name)
+					rp := map[string]any{"captured_vm": captured, "round": round + 1, "call": st.name, "error": fmt.Sprint(err), "panic": pan}
+					switch {
+					case pan != "":
+						c.violate(hashKey(key), fmt.Sprintf("round %d, %s: a Go panic escaped: %s", round+1, st.name, clip(pan, 200)), rp)
+					case err != nil:
+						c.violate(hashKey(key), fmt.Sprintf("round %d, %s (native re-enters the %s VM): %s", round+1, st.name, map[bool]string{true: "captured", false: "callback's"}[captured], firstLine(err.Error())), rp)
+					case len(rets) != 1 || rets[0].Int() != st.want:
+						c.violate(hashKey(key), fmt.Sprintf("round %d, %s returned %v, want %d", round+1, st.name, valsToDescs(rets), st.want), rp)
+					default:
+						c.TracesVsImpl++
+						kept = append(kept, rets)
+						keptWant = append(keptWant, st.want)
+					}
+				}
+			}
+			for i, rs := range kept {
+				if rs[0].Int() != keptWant[i] {
+					c.violate(hashKey(fmt.Sprintf("kept|%v", captured)), fmt.Sprintf("the result slice returned by an earlier Call changed after later Calls on the same VM: %d became %d", keptWant[i], rs[0].Int()), map[string]any{"index": i})
+					break
 				}
 			}
 		}
